@@ -239,6 +239,12 @@ func (r *DecodeResult) NestedResult(tag int) (*DecodeResult, error) {
 	if err != nil {
 		return nil, err
 	}
+	if tmp == nil {
+		// an empty nested message decodes to an empty result
+		if tmp, err = r.nestedDecoders[nestedIdx].emptyResult(); err != nil {
+			return nil, err
+		}
+	}
 	tmp.skipClose = true
 	r.closers = append(r.closers, tmp)
 	return tmp, nil
@@ -273,6 +279,12 @@ func (r *DecodeResult) NestedResults(tag int) ([]*DecodeResult, error) {
 		res, err := dec.decodeWithPool(b)
 		if err != nil {
 			return nil, err
+		}
+		if res == nil {
+			// an empty nested message decodes to an empty result
+			if res, err = dec.emptyResult(); err != nil {
+				return nil, err
+			}
 		}
 		res.skipClose = true
 		results = append(results, res)
